@@ -90,7 +90,31 @@ theorem linker_non_semver (l : String) (h : isValid l = false) : normalizeBuild 
   unfold normalizeBuild
   simp [h]
 
+/-- **the version the gate sees depends on the linker's `version` value alone**: whatever commit, tree state, date and builder
+the linker injects as well, and whatever the Go build info provides as defaults (model of the whole callback of
+`main.buildVersion`, run against the real function on every check) -/
+theorem linker_version_alone (d : Info) (v c di da bb : String) (hv : v ≠ "") :
+    (applyLinker d v c di da bb).gitVersion = normalizeBuild v := by
+  simp [applyLinker, hv]
+
+/-- without a linker version the (normalised) default of the Go build info is used — `devel` builds skip the gate (`gate_skipped`) -/
+theorem linker_version_default (d : Info) (c di da bb : String) :
+    (applyLinker d "" c di da bb).gitVersion = normalizeBuild d.gitVersion := by
+  simp [applyLinker]
+
+/-- the build-info line of the generated file's header starts with that version, and is exactly it when nothing else is known -/
+theorem buildInfo_starts_with_version (i : Info) : ∃ suffix, buildInfo i = i.gitVersion ++ suffix := by
+  refine ⟨(if i.gitCommit != "unknown" then " " ++ i.gitCommit ++ (if i.treeState != "unknown" then "-" ++ i.treeState else "") else "") ++
+          (if i.buildDate != "unknown" then " (build date " ++ i.buildDate ++ ")" else ""), ?_⟩
+  unfold buildInfo
+  by_cases h1 : i.gitCommit != "unknown" <;> by_cases h2 : i.treeState != "unknown" <;> by_cases h3 : i.buildDate != "unknown" <;>
+    simp [h1, h2, h3, String.append_assoc]
+
+theorem buildInfo_plain (v bb : String) : buildInfo ⟨v, "unknown", "unknown", "unknown", bb⟩ = v := by
+  simp [buildInfo]
+
 -- non-vacuity: the table is exercised by real version strings
+example : buildInfo (applyLinker ⟨"devel", "unknown", "unknown", "unknown", "unknown"⟩ "v1.2.3" "abc" "true" "" "") = "1.2.3 abc-dirty" := by decide
 example : normalizeBuild "v1.4.2+build5" = "1.4.2+build5" ∧ normalizeBuild "dev" = "dev" ∧ normalizeBuild "1.4.2" = "1.4.2" := by decide
 example : parse "v0.3.1-alpha.1+b7".toList = some ⟨0, 3, 1, "-alpha.1".toList, "+b7".toList⟩ := by decide
 example : validateVersion "0.3.0" (some "0.3.9") = [] := by decide
